@@ -89,8 +89,23 @@ def signatures():
                 "ext": bool(g & VTGroup.EXTERNAL), "float": bool(g & (VTGroup.FLOAT | VTGroup.DOUBLE)),
                 "hyb": bool(g & VTGroup.HYBRID_LVAR), "const": bool(g & VTGroup.CONST)}
 
-    subs = [{"name": n, "ret": vt(s.value_type), "params": [vt(p.value_type) for p in s.ops],
-             "pnames": [p.get_name() for p in s.ops], "body": s.body} for n, s in c.sub_routines.items()]
+    import json as _json
+    from rzilcompiler.Configuration import Conf, InputFile
+    from vt import tree2ast
+    with open(Conf.get_path(InputFile.HEXAGON_SUB_ROUTINES_JSON)) as f:
+        rj = _json.load(f)["sub_routines"]
+    subs = []
+    for n, s in c.sub_routines.items():
+        d = {"name": n, "ret": vt(s.value_type), "params": [vt(p.value_type) for p in s.ops],
+             "pnames": [p.get_name() for p in s.ops], "body": s.body}
+        if n in rj:
+            d["code"] = rj[n]["code"]
+            d["decl"] = {"return_type": rj[n]["return_type"], "params": rj[n]["params"]}
+            try:
+                d["ast"] = tree2ast.program(c.parser.parse(rj[n]["code"]))
+            except Exception as e:
+                d["ast_error"] = f"{type(e).__name__}: {e}"
+        subs.append(d)
     macs = [{"name": n, "rz": m.rzil_macro, "ret": vt(m.return_type), "params": [vt(p) for p in m.param_types]}
             for n, m in c.transformer.macros.items()]
     return {"subs": subs, "macros": macs}
